@@ -92,3 +92,49 @@ Example c03_nonvacuous :
   map ores (sim_exec c03_bench 500 [] [(CProcEvent 0 0 4, [3;1;4;1;5;9;2;6]); (CReadSink 0, [])])
   = [ROk; ROk; RSink [11; 12]%Z].
 Proof. vm_compute. reflexivity. Qed.
+
+(* ---- the blocking protocol of the mailbox channel (Model/Chan.v) ----
+   Sim.v lets a send proceed exactly when the target mailbox has room and a model start exactly when its
+   mailbox holds a message.  Chan.v models what channel.rs does to achieve this (senders parked on an
+   async_event::Event, the receiver on a DiatomicWaker, at one shared access per step, any number of
+   senders) and proves, for the programs GENERATED from the current channel.rs and for every interleaving:
+   a parked sender that nobody is going to wake faces a full mailbox, and the parked receiver that nobody
+   is going to wake faces an empty one - no wake-up is lost, so no accepted message waits for ever in front
+   of free room and no queued message is left unprocessed by a sleeping receiver. *)
+Require Import NX.Model.Chan NX.gen.ChanProg NX.Proofs.ChanInv NX.Proofs.ChanProofs NX.Proofs.ChanGen.
+
+Theorem c03_chan_source_is_proved_program : chan_gen = chan_fixed.
+Proof. exact chan_gen_is_proved. Qed.
+Print Assumptions c03_chan_source_is_proved_program.
+
+Theorem c03_chan_sender_sleeps_only_when_full :
+  forall c n ls x,
+    let s := c_run chan_gen (c_init c n) ls in
+    senders_settled s -> rpend s = false -> spc_ (S_ s x) = SSleep -> cocc s = ccap s.
+Proof. exact chan_gen_sender_sleeps_only_when_full. Qed.
+Print Assumptions c03_chan_sender_sleeps_only_when_full.
+
+Theorem c03_chan_receiver_sleeps_only_when_empty :
+  forall c n ls,
+    let s := c_run chan_gen (c_init c n) ls in
+    rpc_ s = RSleep -> rwk s = false ->
+    (forall x, will_notify_recv (spc_ (S_ s x)) = false) -> cavail s = 0.
+Proof. exact chan_gen_receiver_sleeps_only_when_empty. Qed.
+Print Assumptions c03_chan_receiver_sleeps_only_when_empty.
+
+Theorem c03_chan_bounded :
+  forall c n ls, let s := c_run chan_gen (c_init c n) ls in cavail s <= cocc s /\ cocc s <= ccap s.
+Proof. exact chan_gen_bounded. Qed.
+Print Assumptions c03_chan_bounded.
+
+Theorem c03_chan_invariant :
+  forall c n ls, CInv (c_run chan_gen (c_init c n) ls).
+Proof. intros c n ls. rewrite chan_gen_is_proved. exact (chan_run_inv c n ls). Qed.
+Print Assumptions c03_chan_invariant.
+
+(* a receiver that frees the slot without notifying a sender (the closest expressible form of "notify only
+   when the queue was full") leaves a sender asleep in front of a free slot *)
+Example c03_chan_no_notify_refuted :
+  let s := c_run chan_no_notify (c_init 1 2) sched_lost in
+  spc_ (S_ s 1) = SSleep /\ sin (S_ s 1) = true /\ swk (S_ s 1) = false /\ cocc s = 0 /\ ccap s = 1 /\ rpend s = false.
+Proof. exact chan_no_notify_refuted. Qed.
